@@ -567,7 +567,8 @@ func multiScenarioZ(progs [][]string, capN, prefill, bound int, zero bool) schk.
 						d := time.Duration(0)
 						var ctx context.Context = never
 						if timedOf(c) {
-							d, ctx = time.Second, r.ctx
+							// the smallest positive duration is a limit like any other (only <= 0 means none)
+							d, ctx = time.Duration(1), r.ctx
 						}
 						v := valOf(t, j)
 						switch c[:2] {
